@@ -166,6 +166,42 @@ def array_model(obj, dtype=None, *a, **k):
     return _np.array(obj, dtype=dtype, *a, **k) if dtype is not None else _np.array(obj, *a, **k)
 
 
+ARGSORT_TIES = []
+
+
+def argsort_model(a, axis=-1, kind=None, **k):
+    """np.argsort under its documented contract: the default kind is not stable, so the order of tied keys is
+    unspecified (it depends on the array length and on the SIMD kernels of the build).  Keys are ordered through the
+    engine's decisions; for every group of tied keys the model may return them in index order or reversed (a
+    decision of the exploration), and records that it did so."""
+    from .sym import engine
+    keys = list(_np.asarray(a, dtype=object).reshape(-1))
+    idx = []
+    for i, v in enumerate(keys):          # stable insertion sort
+        pos = len(idx)
+        while pos > 0 and bool(v < keys[idx[pos - 1]]):
+            pos -= 1
+        idx.insert(pos, i)
+    if kind in ('stable', 'mergesort'):
+        return _np.array(idx, dtype=int)
+    out, g = [], [idx[0]] if idx else []
+    groups = []
+    for j in idx[1:]:
+        if bool(keys[j] == keys[g[-1]]):
+            g.append(j)
+        else:
+            groups.append(g)
+            g = [j]
+    if g:
+        groups.append(g)
+    for g in groups:
+        if len(g) >= 2 and engine().choice(2) == 1:
+            ARGSORT_TIES.append(tuple(g))
+            g = g[::-1]
+        out.extend(g)
+    return _np.array(out, dtype=int)
+
+
 class SymArray(_np.ndarray):
     """Object array standing in for a float array: storing a *non-scalar* into a single element is delegated to
     NumPy's own rule for float arrays (NumPy 2 refuses `a[i] = array([v])` with "setting an array element with a
